@@ -5,8 +5,8 @@ Generated: coq/gen/C18Consts.v with
   special_dirs, marker_files_default, project_files, testdir_names, testdir_suffixes,
   defer_file, pass1_allow_setup_py, pass2_allow_setup_py.
 Checked shapes (no definition generated; the Gallina model hard-codes them, so a change
-of shape must stop the run): exclusion test `os.path.commonprefix((root, excluded_path))
-== excluded_path`, special test on `os.path.basename(root)`, the root exemption
+of shape must stop the run): exclusion test `root == excluded_path or
+root.startswith(excluded_path.rstrip(os.sep) + os.sep)` (since ca4e69e), special test on `os.path.basename(root)`, the root exemption
 `if is_excluded and not root == self.path: dirs[:] = []; continue`, marker directory
 removal `dirs.remove(dir_)` + `break` with a `for ... else` over files, the walk call
 `os.walk(self.path)`, `yield root` under `if root_is_valid`.
@@ -73,7 +73,7 @@ def read_source(ctx: Any = None) -> dict:
         0: "is_excluded = False",
         1: "filename = os.path.basename(root)",
         2: ("if filename in SPECIAL_DIRS:\n    is_excluded = True\nelse:\n    for excluded_path in excluded_paths:\n"
-            "        if os.path.commonprefix((root, excluded_path)) == excluded_path:\n"
+            "        if root == excluded_path or root.startswith(excluded_path.rstrip(os.sep) + os.sep):\n"
             "            is_excluded = True\n            break"),
         3: ("if not is_excluded:\n    for dir_ in list(dirs):\n        if dir_ in self.marker_files:\n"
             "            dirs.remove(dir_)\n            is_excluded = True\n            break\n    else:\n"
